@@ -304,12 +304,20 @@ func multiOf(k, limit, heads int, failFirst bool) *sched.Scenario {
 }
 
 // ---- S4: announcements plus an explicit sync of the same publisher
-func mixed() *sched.Scenario {
-	name := "S4-announce+explicit"
+func mixed() *sched.Scenario { return mixedOf("S4-announce+explicit") }
+
+// ---- S12: the same with a subscriber that syncs in segments of one
+// advertisement (SegmentDepthLimit(1)): a sync made of several traversals is
+// still one sync
+func mixedSegmented() *sched.Scenario {
+	return mixedOf("S12-announce+explicit-segmented", dagsync.SegmentDepthLimit(1))
+}
+
+func mixedOf(name string, so ...dagsync.Option) *sched.Scenario {
 	return &sched.Scenario{
 		Name: name,
 		Setup: func(e *sched.Exec) ([]sched.Thread, func()) {
-			w := schedfx.New(e, schedfx.Options{Pubs: 1, ChainLen: 4, Announce: true})
+			w := schedfx.New(e, schedfx.Options{Pubs: 1, ChainLen: 4, Announce: true, SubOpts: so})
 			p, ch := w.Pubs[0], w.Chains[0]
 			p.Publisher.SetRoot(ch.Cids[3])
 			threads := []sched.Thread{
@@ -347,15 +355,28 @@ func mixed() *sched.Scenario {
 // after idle expiry or RemoveHandler) overlapping an announcement, or an
 // explicit sync, of the same publisher: still one sync at a time
 func entriesOfHandlerlessPublisher(other string) *sched.Scenario {
-	name := "S9-entries-sync-of-handlerless-publisher+" + other
+	return entriesVsAds("S9-entries-sync-of-handlerless-publisher+"+other, other, true)
+}
+
+// ---- S13: an entries sync overlapping an announcement / an explicit sync of
+// the same publisher on a subscriber that syncs advertisement chains in
+// segments of one (SegmentDepthLimit(1)): the two advertisements are two
+// traversals of ONE sync, and the entries sync does not get in between
+func entriesVsSegmentedAds(other string) *sched.Scenario {
+	return entriesVsAds("S13-entries-sync+segmented-"+other, other, false, dagsync.SegmentDepthLimit(1))
+}
+
+func entriesVsAds(name, other string, removeHandler bool, so ...dagsync.Option) *sched.Scenario {
 	return &sched.Scenario{
 		Name: name,
 		Setup: func(e *sched.Exec) ([]sched.Thread, func()) {
-			w := schedfx.New(e, schedfx.Options{Pubs: 1, ChainLen: 3, Announce: true})
+			w := schedfx.New(e, schedfx.Options{Pubs: 1, ChainLen: 3, Announce: true, SubOpts: so})
 			p, ch := w.Pubs[0], w.Chains[0]
 			ech := syncfx.BuildEntryChain(p.Src, 2, syncfx.DefaultProto, "pub0-entries")
 			p.Publisher.SetRoot(ch.Cids[2])
-			w.Sub.RemoveHandler(p.Ident.ID)
+			if removeHandler {
+				w.Sub.RemoveHandler(p.Ident.ID)
+			}
 			threads := []sched.Thread{
 				{Name: "E", Fn: func() {
 					e.Log("E entries-sync begin")
@@ -578,7 +599,7 @@ func scoped() *sched.Scenario {
 
 func TestCheck(t *testing.T) {
 	r := vp.New("C08", "model_checking",
-		"scenarios over the real subscriber built with the instrumentation overlay (gated in-memory publishers, chains of 3-4 signed ads, first ad pre-synced): S1 burst of 3 announcements to one publisher; S2 the same with a failing block request; S3 k publishers x 2 announcements with MaxAsyncConcurrency unset/1/2; S4 announcements plus an explicit sync (queried head) of the same publisher; S5 two explicit syncs of one publisher with different scoped hooks; S8 the burst of S1 under MaxAsyncConcurrency(2), i.e. with free slots; S9 an entries sync of a publisher whose handler was removed overlapping an announcement / an explicit sync of that publisher; S10 an allow filter rejecting one peer, which announces the publisher's new head before / after the publisher does; S11 an announcement after a silence longer than the idle-handler time-to-live (virtual time). All interleavings of harness threads, library goroutines (watcher, per-announcement handler, distributor), publisher requests and hook calls at the scheduling points (every lock, atomic, channel operation, select, spawn, request, hook call, observation) up to the preemption bound. states = distinct decision states; transitions = scheduling steps; traces = executions of the real code.",
+		"scenarios over the real subscriber built with the instrumentation overlay (gated in-memory publishers, chains of 3-4 signed ads, first ad pre-synced): S1 burst of 3 announcements to one publisher; S2 the same with a failing block request; S3 k publishers x 2 announcements with MaxAsyncConcurrency unset/1/2; S4 announcements plus an explicit sync (queried head) of the same publisher; S12 the same on a subscriber that syncs in segments of one advertisement (SegmentDepthLimit(1)); S13 an entries sync overlapping an announcement / explicit sync of the same publisher on such a subscriber; S5 two explicit syncs of one publisher with different scoped hooks; S8 the burst of S1 under MaxAsyncConcurrency(2), i.e. with free slots; S9 an entries sync of a publisher whose handler was removed overlapping an announcement / an explicit sync of that publisher; S10 an allow filter rejecting one peer, which announces the publisher's new head before / after the publisher does; S11 an announcement after a silence longer than the idle-handler time-to-live (virtual time). All interleavings of harness threads, library goroutines (watcher, per-announcement handler, distributor), publisher requests and hook calls at the scheduling points (every lock, atomic, channel operation, select, spawn, request, hook call, observation) up to the preemption bound. states = distinct decision states; transitions = scheduling steps; traces = executions of the real code.",
 		"cooperative scheduling at synchronization operations; select statements try cases in source order; bursts of 3 announcements, at most 3 publishers",
 		"discovery requests are made in a free-running warm-up sync before the explored part",
 	)
@@ -592,7 +613,7 @@ func TestCheck(t *testing.T) {
 	// S8: the burst of S1 under a limit of concurrent announce-triggered syncs
 	// that leaves slots free (one publisher, limit 2): announcements of one
 	// publisher are handled one after the other whatever the limit is
-	scs := []*sched.Scenario{burstOf("S6b-reannounce-synced-head-then-one-new", -1, []int{0, 1}), burstOf("S6-reannounce-synced-head-then-new", -1, []int{0, 1, 2}), multiOf(3, 1, 1, true), burst("S1-burst", -1), burstOf("S8-burst-limit2", -1, []int{1, 2, 3}, dagsync.MaxAsyncConcurrency(2)), multi(2, 0), multi(2, 1), mixed(), scoped(), entriesOfHandlerlessPublisher("announce"), entriesOfHandlerlessPublisher("explicit"), rejectedThenAllowed(), announceAfterIdleCleanup(), burst("S2-burst-failing-request", 2)}
+	scs := []*sched.Scenario{burstOf("S6b-reannounce-synced-head-then-one-new", -1, []int{0, 1}), burstOf("S6-reannounce-synced-head-then-new", -1, []int{0, 1, 2}), multiOf(3, 1, 1, true), burst("S1-burst", -1), burstOf("S8-burst-limit2", -1, []int{1, 2, 3}, dagsync.MaxAsyncConcurrency(2)), multi(2, 0), multi(2, 1), mixed(), mixedSegmented(), entriesVsSegmentedAds("announce"), entriesVsSegmentedAds("explicit"), scoped(), entriesOfHandlerlessPublisher("announce"), entriesOfHandlerlessPublisher("explicit"), rejectedThenAllowed(), announceAfterIdleCleanup(), burst("S2-burst-failing-request", 2)}
 	if thorough {
 		scs = append(scs, multi(2, 2), multi(3, 1), multi(3, 2))
 	}
